@@ -29,6 +29,12 @@ def r10_3(ctx):
     ex = Exprs(b)
     terms = _lookup_term(b, ex)
     if len(terms) != 1:
+        lookups = [t for t in terms if any(s[0] == "call" and s[1].endswith("::get") for s in subexprs(t))]
+        others = [t for t in terms if t not in lookups]
+        if len(lookups) == 1 and others:
+            ctx.ob("is_threefold_repetition:depends-only-on-count", False, b.where((0, 0)),
+                   "the repetition predicate also depends on `%s`: whether a position counts as repeated must depend on its count alone" % show_expr(others[0], b)[:80])
+            return
         raise ShapeNotRecognised("is_threefold_repetition decides on %d distinct terms: %s" % (
             len(terms), [show_expr(t, b)[:60] for t in terms]))
     x = next(iter(terms))
@@ -275,3 +281,25 @@ def r10_6(ctx):
                 where = b.where(b.term_loc(bb2))
         detail = "a node can be scored without consulting the repetition record (e.g. at the search horizon): a move into a third occurrence is then not valued as a draw"
     ctx.ob("alpha_beta_search:repetition-test-on-every-node", not bad and bool(tests), where, detail)
+
+
+def r10_8(ctx):
+    """`go` leaves the session's repetition record untouched: find_and_play_best_move only clones it."""
+    f = ctx.facts
+    b = f.body("uci::find_and_play_best_move")
+    ctx.note_fn("uci::find_and_play_best_move")
+    tp = [i for i in range(1, b.arg_count + 1) if b.local_ty(i) == "&mut draw_table::DrawTable"]
+    if len(tp) != 1:
+        raise ShapeNotRecognised("find_and_play_best_move(.., draw_table: &mut DrawTable)")
+    uses = []
+    for bb, t in b.iter_calls():
+        for a in t["args"]:
+            al = operand_alias(b, a)
+            if al and al[0] == tp[0]:
+                uses.append((bb, callee_of(t) or "?"))
+    for loc, st in b.iter_stmts():
+        if st["k"] == "assign" and st["place"]["local"] == tp[0] and st["place"]["proj"]:
+            uses.append((loc[0], "direct write"))
+    bad = [(bb, c) for bb, c in uses if not c.endswith("DrawTable as std::clone::Clone>::clone")]
+    ctx.ob("find_and_play_best_move:record-only-cloned", not bad and bool(uses), b.where(b.term_loc(bad[0][0])) if bad else b.file,
+           "the repetition record is used by: %s; only a clone may leave this function, otherwise a second `go` without a new `position` searches with a changed record" % sorted({c.split("::")[-1] for _, c in uses}))
